@@ -347,8 +347,11 @@ class OrderedMultiDict(dict):
         if isinstance(other, OrderedMultiDict):
             selfi = self.iteritems(multi=True)
             otheri = other.iteritems(multi=True)
-            zipped_items = zip_longest(selfi, otheri, fillvalue=(None, None))
+            zipped_items = zip_longest(selfi, otheri,
+                                       fillvalue=(_MISSING, _MISSING))
             for (selfk, selfv), (otherk, otherv) in zipped_items:
+                if selfk is _MISSING or otherk is _MISSING:
+                    return False
                 if selfk != otherk or selfv != otherv:
                     return False
             if not(next(selfi, _MISSING) is _MISSING
